@@ -8,6 +8,11 @@ import warnings
 LIBS = ['BensonGA', 'GRWAqueous2018', 'GRWSurface2018', 'GuSolventGA2017Aq', 'GuSolventGA2017Vac', 'PPY',
         'PtSurface2023', 'SalciccioliGA2012', 'XieGA2022']
 _cache = {}
+try:
+    from rdkit import RDLogger
+    RDLogger.DisableLog('rdApp.*')
+except Exception:      # noqa
+    pass
 
 
 @contextlib.contextmanager
